@@ -337,6 +337,11 @@ class Driver:
             self._od = getattr(self, "_od", 0) + 1
             m.objective = d if (d or self._od % 2) else []      # the empty objective as {} or []
             return {"raises": "none"}
+        if op == "dblcol":
+            r = self.rx[s["r"] - 1]
+            for mt, c in list(r.metabolites.items()):
+                r.add_metabolites({mt.id: c})          # the key is the identifier (text)
+            return {"raises": "none"}
         if op == "addrxn":
             import cobra
             src = self.rx[s["r"] - 1]
@@ -769,7 +774,7 @@ def run(prop, tier, replay=None):
             cur = m
             for s in beh["steps"]:
                 cases.add(hash((cur, json.dumps(s, sort_keys=True))))
-                if s["op"] in ("setbounds", "setobj", "setdir", "setobjdict", "addrxn"):
+                if s["op"] in ("setbounds", "setobj", "setdir", "setobjdict", "addrxn", "dblcol"):
                     cur = cur + json.dumps(s, sort_keys=True)
         if traces:
             samples.append(traces[(len(traces) // 2 + sd) % len(traces)])
